@@ -55,6 +55,15 @@ def c11_jobs(rng, quick):
         if sym == "c128":
             jobs.append(gen.enc(sym, c, p, api="EncodeWithoutChecksum"))
             jobs.append(gen.enc(sym, c, p, api="EncodeWithoutChecksumWithColor", scheme=scheme(k + 1)))
+    # misuse that must stay local: a WithColor call with an incomplete colour scheme (dropped unobserved), then the plain call: black on white
+    red = dict(t="rgba", v=[200, 0, 0, 255])
+    white = dict(t="rgba", v=[255, 255, 255, 255])
+    for k, (sym, content, p) in enumerate(gen.SAMPLES):
+        c = content if isinstance(content, (bytes, list)) else onedim.U(content)
+        poke = gen.enc(sym, c, p, api="EncodeWithColor", scheme=dict(model="rgba", fg=red, bg=white, partial=("fg", "bg", "model", "zero")[k % 4]))
+        poke["op"] = "poke"
+        jobs.append(poke)
+        jobs.append(gen.enc(sym, c, p))
     return jobs
 
 
@@ -69,6 +78,7 @@ def run(tier):
     drive = vlib.build_harness(chk.work)
     jobs = c11_jobs(chk.rng, quick)
     evs, _ = onedim.judge_multi(chk, drive, jobs, wanted, nshards=12 if quick else 16)
+    evs = [e for e in evs if e.get("op") != "poke"]
     ok = [e for e in evs if e["res"]["kind"] == "ok"]
     if len(ok) < len(evs):
         bad = next(e for e in evs if e["res"]["kind"] != "ok")
